@@ -643,7 +643,47 @@ def _r7(chk, repo, base):
 
 
 # ------------------------------------------------------------------------------------------------ legacy (R2, R3, R8)
+def _legacy_kernel_callers(chk, repo):
+    """interprocedural part of R2 for the legacy interface: if SOME implementation of single_update writes into its i-th argument, then every method
+    that calls self.single_update must hand it an object of its own at that position - never its caller's array (a parameter or an alias of one)."""
+    mut = {}          # argument position -> [class names whose kernel writes into it]
+    for ci in legacy_samplers(repo):
+        fn = ci.methods.get("single_update")
+        if fn is None:
+            continue
+        ps = func_params(fn)[1:]
+        for r, n, a, k in FnAlias(fn).mutated_roots():
+            if r.startswith("param:") and r != "param:self" and r[6:].split(".")[0] in ps:
+                mut.setdefault(ps.index(r[6:].split(".")[0]), []).append(ci.name)
+    ncall = 0
+    for ci in repo.classes:
+        if not ci.module.rel.startswith("cuqi/sampler/"):
+            continue
+        for mname, fn in ci.methods.items():
+            calls = [c for c in ast.walk(fn) if isinstance(c, ast.Call) and call_name(c) == "self.single_update"]
+            if not calls:
+                continue
+            fa = FnAlias(fn)
+            for c in calls:
+                ncall += 1
+                cn = fa.cfg.stmt_node_containing(c)
+                bad = []
+                for pos, who in sorted(mut.items()):
+                    if pos < len(c.args) and cn is not None:
+                        rs = [r for r in fa.roots(c.args[pos], cn) if r.startswith("param:") and r != "param:self"]
+                        if rs:
+                            bad.append((rs[0][6:], who))
+                chk.add("C14-R2", f"{ci.qual}.{mname}/single_update-argument", not bad, site(repo, c),
+                        "the kernel is handed an array owned by this method",
+                        f"`{unparse(c)[:70]}` passes the caller's own array `{bad[0][0] if bad else ''}` to single_update, which {bad[0][1] if bad else ''} update(s) in place: "
+                        f"a state the caller still holds (e.g. the last column of a stored chain, from which a Gibbs continuation restarts) is overwritten by "
+                        f"later transitions", c)
+    if ncall < 4:
+        raise AnchorError(f"{ncall} calls of self.single_update found in cuqi/sampler, at least 4 confirmed by hand")
+
+
 def _legacy(chk, repo):
+    _legacy_kernel_callers(chk, repo)
     base = repo.cls(LEG_SAMPLER)
     loops_checked = 0
     for ci in legacy_samplers(repo):
